@@ -1,6 +1,7 @@
 package props
 
 import (
+	"os"
 	"encoding/hex"
 	"encoding/json"
 	"fmt"
@@ -262,7 +263,7 @@ func execFault(fc FaultCase) (*FaultOutcome, error) {
 			return nil
 		}
 		if fc.Replace {
-			if it.Count == 0 {
+			if it.Count <= 1 { // Deliver counts the hand-over before it calls Mutate
 				return nil // the honest-looking first copy
 			}
 			// the replacement only counts as handed over for consumption if the recipient has not yet finished the
@@ -341,6 +342,15 @@ func execFault(fc FaultCase) (*FaultOutcome, error) {
 	}
 	sched := s.Run(strat, rand.New(rand.NewSource(sc.Seed)), 50000)
 	out.Steps = len(sched)
+	if os.Getenv("VERIF_DEBUG_SCHED") != "" {
+		for _, st := range sched {
+			if st.Op == "start" {
+				out.Note += fmt.Sprintf(" start(%d)", st.Node)
+			} else if it := s.ItemByID(st.Item); it != nil {
+				out.Note += fmt.Sprintf(" %s(%s %d->%d)", st.Op, it.Msg.Type, it.From.G, it.To.G)
+			}
+		}
+	}
 	out.Quiescent = s.Quiescent()
 	for _, n := range s.Nodes {
 		if n.G == fc.Dev {
